@@ -54,6 +54,7 @@ fixed("C05","C05/rdata-differs/NSEC3/Salt/boundary1","9e33174","NSEC3.parse and 
 fixed("C05","C05/reparse-error/X25/PSDNAddress/space","bd5e33b","X25 printed its PSDN address verbatim (no quoting) and parsed a single bare token: addresses with blanks, ';', parentheses or empty could not be read back")
 fixed("C05","C05/zone-sequence/parse-error/IPSECKEY","844328e","an IPSECKEY record followed by another entry made the zone parser fail with 'garbage after rdata': IPSECKEY.parse called slurpRemainder after endingToString had already consumed the end of the line, so it read the next entry's owner")
 fixed("C05","C05/rdata-differs/LOC/Latitude/around-equator","ae08fcd","LOC latitude/longitude seconds were truncated instead of rounded when read from text (1000*1.001 = 1000.9999999999999): values such as 1.001, 2.002 came back one 1/1000 arc-second off")
+fixed("C05","C05/reparse-error/IPSECKEY/random","8f47d29","IPSECKEY and AMTRELAY with an IPv6 gateway (type 2) inside ::ffff:0:0/96 printed the gateway as a dotted quad, which their own parser refuses for that type (and it refused the ::ffff: spelling too): such records could not be read back from their String() form (also C05/reparse-error/AMTRELAY/random)")
 # ---- C06
 known("C06","C06/quoting/NAPTR/bare","NAPTR flags/service/regexp written as bare (unquoted) <character-string>s, which RFC 1035 s.5.1 allows, are rejected: the NAPTR parser insists on quotes")
 fixed("C06","C06/ttl/omitted-uses-$TTL/ttl-class/generate","c4c1c70","records produced by $GENERATE ignored $TTL, the last stated TTL and the configured default (always 3600)")
